@@ -78,6 +78,26 @@ def tables(rng, n, T, kind):
     return P, F, E
 
 
+def stationary_tables(rng, n, T):
+    """row-stochastic positive P with its stationary vector (power iteration): the situation the
+    HmmTransitionMatrix interface promises; the derivative predicates are judged on these"""
+    P = []
+    for _ in range(n):
+        r = [rng.random() + 0.05 for _ in range(n)]
+        s = sum(r)
+        P += [x / s for x in r]
+    pi = [1.0 / n] * n
+    for _ in range(2000):
+        nxt = [sum(pi[k] * P[k * n + j] for k in range(n)) for j in range(n)]
+        s = sum(nxt)
+        nxt = [x / s for x in nxt]
+        if max(abs(a - b) for a, b in zip(nxt, pi)) == 0:
+            break
+        pi = nxt
+    E = [10.0 ** (-rng.uniform(0, 3)) for _ in range(n * T)]
+    return P, pi, E
+
+
 def stage(n, P, F, E):
     ops = ["states %d" % n, "trans " + " ".join(h(x) for x in P), "eq " + " ".join(h(x) for x in F)]
     per = 200 * n
@@ -158,8 +178,8 @@ def generate(seed, tier):
     for i in range(n_hist):
         n = rng.choice([1, 2, 2, 3, 3, 4, 5])
         T = rng.randint(1, {1: 10, 2: 8, 3: 6, 4: 5, 5: 4}[n] if i % 3 else 14)
-        kind = rng.choice(["pos", "sparse", "any"])
-        P, F, E = tables(rng, n, T, kind)
+        kind = rng.choice(["pos", "sparse", "any", "stat"])
+        P, F, E = stationary_tables(rng, n, T) if kind == "stat" else tables(rng, n, T, kind)
         ops = stage(n, P, F, E)
         c = rng.randint(1, T + 1)
         objs = ["r", "l", "g"]
@@ -168,7 +188,7 @@ def generate(seed, tier):
             u = rng.random()
             if u < 0.35:
                 # one parameter, same update on all objects
-                which = rng.random()
+                which = rng.random() if kind != "stat" else 0.9
                 if which < 0.4:
                     name = "p%d_%d" % (rng.randrange(n), rng.randrange(n))
                     v = rng.choice([0.0, rng.random(), rng.random()])
@@ -178,14 +198,14 @@ def generate(seed, tier):
                 else:
                     name = "e%d_%d" % (rng.randrange(T), rng.randrange(n))
                     v = rand_emission(rng, kind)
-                if kind == "pos":
+                if kind in ("pos", "stat"):
                     v = max(v, 1e-3)
                 for o in (objs if rng.random() < 0.8 else [rng.choice(objs)]):
                     ops.append("setp %s %s %s" % (o, name, h(v)))
             elif u < 0.5:
                 names = set()
                 for _ in range(rng.randint(1, 5)):
-                    w = rng.random()
+                    w = rng.random() if kind != "stat" else 0.9
                     names.add("p%d_%d" % (rng.randrange(n), rng.randrange(n)) if w < 0.4 else
                               "f%d" % rng.randrange(n) if w < 0.5 else "e%d_%d" % (rng.randrange(T), rng.randrange(n)))
                 if rng.random() < 0.1:
@@ -193,7 +213,7 @@ def generate(seed, tier):
                 pairs = []
                 for nm in sorted(names):
                     v = rand_emission(rng, kind) if nm[0] == "e" else rng.choice([0.0, rng.random()])
-                    if kind == "pos":
+                    if kind in ("pos", "stat"):
                         v = max(v, 1e-3)
                     pairs += [nm, h(v)]
                 for o in objs:
@@ -212,10 +232,12 @@ def generate(seed, tier):
                 ops.append("sls %s" % rng.choice(["r", "g"]))
             elif u < 0.96:
                 var = "e%d_%d" % (rng.randrange(T), rng.randrange(n)) if rng.random() < 0.85 else rng.choice(["p0_0", "f0", "zz"])
-                o = rng.choice(["r", "r", "r", "l", "g"])
-                ops.append("d1 %s %s" % (o, var))
+                o = rng.choice(["r", "r", "r", "r", "l", "g"])
+                dd = rng.choice(["d1", "d1", "d2"])
+                ops.append("%s %s %s" % (dd, o, var))
                 if rng.random() < 0.5:
-                    ops.append("d1 %s %s" % (o, var))      # same variable again: served from the cache
+                    # same variable again (served from the cache), or the other order
+                    ops.append("%s %s %s" % (rng.choice([dd, "d1", "d2"]), o, var))
             else:
                 ops.append("ll %s" % rng.choice(objs))
         ops.append("agree r l g")
